@@ -40,6 +40,9 @@ def judge(ctx, r):
         if s["real"] == "ok" and s["op"][0] != "reopen":
             expected_after(exp, s)
         a = C.absfile(s["after"])
+        if a is None:
+            ctx.fail(f"{r.desc} step {i} {s['op']}: the file can no longer be parsed", rep, ident="file unreadable after " + s["op"][0])
+            return
         got = {e[1]: (bytes.fromhex(e[8]), e[2], bytes.fromhex(e[7]).decode("cp1252"), e[5], e[6]) for e in a["live"]}
         if len(got) != len(a["live"]):
             ctx.fail(f"{r.desc} step {i} {s['op']}: two live entries of one type", rep, ident="duplicate type")
